@@ -1,4 +1,5 @@
 import TsVerif.C09.Props
+import TsVerif.C09.Bom
 import TsVerif.C01.Stream
 /-!
 # C09 — "offsets map one-to-one", and from "same characters" to "same tree" for deterministic parsing
@@ -12,7 +13,7 @@ import TsVerif.C01.Stream
 * `driver_chunk_indep`: ANY deterministic lex/parse loop (C01's `runDriver`: lex mode from the parser state, one
   token from what is left of the lexer's observation sequence `(offset, look-ahead, size)*`) ends in the same
   parser state under two chunkings of the same text that both satisfy `WholeChar` — a corollary of
-  `chars_chunk_indep_port` by congruence.  As in C13/TreeLevel.lean the content is the modelling claim that a
+  `chars_chunk_indep_port_any` (no assumption about a BOM) by congruence.  As in C13/TreeLevel.lean the content is the modelling claim that a
   parse without external scanner reads the text only through the lexer's observations; it is not proved
   against the C code, and the tree-level claim for real parses is JUDGED per drive.
 -/
@@ -73,11 +74,9 @@ theorem driver_chunk_indep {σ μ : Type} (step : σ → Tok → σ) (mode : σ 
     (lexOne : μ → List (Nat × Int × Nat) → Tok)
     (text : List Nat) (r1 r2 : Read)
     (h1 : ChunkingOf text r1) (w1 : WholeChar text r1) (h2 : ChunkingOf text r2) (w2 : WholeChar text r2)
-    (hsmall : text.length < UMAX)
-    (b1 : (coreLook r1 0 ⟨0, []⟩).1 ≠ BYTE_ORDER_MARK) (b2 : (coreLook r2 0 ⟨0, []⟩).1 ≠ BYTE_ORDER_MARK)
-    (fuel n : Nat) (s : σ) :
+    (hsmall : text.length < UMAX) (fuel n : Nat) (s : σ) :
     runDriver step mode (fun m i => lexOne m ((lexStream r1 fuel).drop i)) n s 0 =
     runDriver step mode (fun m i => lexOne m ((lexStream r2 fuel).drop i)) n s 0 := by
-  rw [chars_chunk_indep_port text r1 r2 h1 w1 h2 w2 hsmall b1 b2 fuel]
+  rw [chars_chunk_indep_port_any text r1 r2 h1 w1 h2 w2 hsmall fuel]
 
 end TsVerif.C09
